@@ -37,7 +37,9 @@ type Layout struct {
 	Epilog    int  // 0 none, 1 comment after the root, 2 white space after the root
 	// ShadowRoot: the IdP itself writes vendor attributes in a foreign namespace that are spelled like the SAML
 	// ones (ext:InResponseTo) on the message root, before (1) or after (2)
-	// the real attributes; not schema-valid, but nothing in the library objects to it. Never drawn by DrawLayout.
+	// the real attributes; not schema-valid, but nothing in the library objects to it. 3-6: a namespace
+	// declaration xmlns:ID / xmlns:InResponseTo / xmlns:Destination / xmlns:Version after the real attributes,
+	// its prefix used by an element inside Extensions. Never drawn by DrawLayout.
 	ShadowRoot int
 	Extras     bool // optional schema-valid content a conforming IdP may add (Extensions, Advice, NameID / SubjectConfirmationData attributes, AuthenticatingAuthority, foreign attributes)
 	Seed       uint64
@@ -560,7 +562,13 @@ func RenderMessage(m *LResponse, l Layout) string {
 		attrs = append(attrs, attr{"InResponseTo", m.InResponseTo})
 	}
 	rootNS := st.rootNS
-	if l.ShadowRoot != 0 {
+	usedDecl := ""
+	if l.ShadowRoot >= 3 {
+		// a namespace declaration whose prefix is spelled like a SAML attribute, written after the real
+		// attributes and used by an extension element below (so it is not an unused declaration)
+		usedDecl = map[int]string{3: "ID", 4: "InResponseTo", 5: "Destination", 6: "Version"}[l.ShadowRoot]
+		attrs = append(attrs, attr{"xmlns:" + usedDecl, "urn:vendor:" + usedDecl})
+	} else if l.ShadowRoot != 0 {
 		// (ext:ID / ext:Destination / ext:Version would make the message unacceptable whichever attribute wins)
 		shadow := []attr{{"ext:InResponseTo", "_vendor_irt"}}
 		if l.ShadowRoot == 1 {
@@ -583,7 +591,12 @@ func RenderMessage(m *LResponse, l Layout) string {
 	if m.Sign != nil {
 		w.b.WriteString(SigSlot(m.ID))
 	}
-	if w.l.Extras {
+	if usedDecl != "" {
+		w.nl()
+		w.open(P+"Extensions", nil, nil, false)
+		w.open(usedDecl+":hint", nil, nil, true)
+		w.close(P + "Extensions")
+	} else if w.l.Extras {
 		w.nl()
 		w.open(P+"Extensions", nil, nil, false)
 		w.textEl("x:Note", []attr{{"xmlns:x", "urn:example:extension"}}, []attr{{"lang", "en"}}, "extension <content> & more")
